@@ -612,7 +612,7 @@ func concreteOnce(prog *ssa.Program, def harnessDef, tier int, seed int64) (outc
 			e.maxUnwind = n
 		}
 	}
-	for _, s := range def.directives["stub"] {
+	for _, s := range append(append([]string(nil), def.directives["stub"]...), def.directives["stub-symbolic"]...) {
 		f := strings.Fields(s)
 		if len(f) == 2 {
 			if fn := def.pkg.Func(f[1]); fn != nil {
@@ -648,6 +648,9 @@ func concreteOnce(prog *ssa.Program, def harnessDef, tier int, seed int64) (outc
 		outcome = "completed"
 	case final.status == Panicked:
 		outcome = "panic"
+		if *flagTrace && final.fail != nil {
+			fmt.Printf("concrete run of %s panicked: %s at %s %v\n", def.fn.Name(), final.fail.msg, final.fail.pos, final.fail.stack)
+		}
 	default:
 		outcome = ""
 	}
